@@ -15,7 +15,7 @@ FUNCTIONS = ["pox.openflow.libopenflow_01: pack/unpack/unpack_new/__len__/__eq__
              "_read/_unpack/_skip/_readzs/_readether/_readip/_packzs", "pox.lib.addresses.EthAddr/IPAddr raw paths"]
 BOUNDS = {}
 OUTSIDE = ["lists longer than the stated bounds", "payloads longer than the stated lengths", "the 64 KiB total-length boundary",
-           "symbolic characters in string fields (strings are concrete per case)", "nx_action_bundle, nx_action_learn / flow_mod_spec (composite Nicira actions)", "IPv6-valued NXM fields"]
+           "symbolic characters in string fields (strings are concrete per case)", "nx_action_bundle with a destination field, flow_mod_spec shapes other than the three of the nx_action_learn docstring", "IPv6-valued NXM fields"]
 ASSUMPTIONS = ["struct.pack/unpack modelled bit-precisely by symx.shims.StructShim (validated against the real module)",
                "ofp_match objects inside other messages are built through the public attribute setters with prerequisites met "
                "(dl_type=0x0800, nw_proto=6) or left fully wildcarded; the free-form match is covered by obligation O3"]
@@ -448,6 +448,8 @@ NX_ACTIONS = {
   'nx_action_fin_timeout': (dict(fin_idle_timeout=(0, 0xffff), fin_hard_timeout=(0, 0xffff)), {}, 8),
   'nx_action_learn': (dict(idle_timeout=(0, 0xffff), hard_timeout=(0, 0xffff), priority=(0, 0xffff), cookie=(0, (1 << 64) - 1), flags=(0, 0xffff), table_id=(0, 255),
                            fin_idle_timeout=(0, 0xffff), fin_hard_timeout=(0, 0xffff)), {}, 24),
+  'nx_action_learn:spec': (dict(idle_timeout=(0, 0xffff), hard_timeout=(0, 0xffff), priority=(0, 0xffff), cookie=(0, (1 << 64) - 1), flags=(0, 0xffff), table_id=(0, 255),
+                                fin_idle_timeout=(0, 0xffff), fin_hard_timeout=(0, 0xffff)), {}, None),     # with the three flow_mod_specs of the class docstring
   'nx_action_bundle': (dict(algorithm=(0, 0xffff), fields=(0, 0xffff), basis=(0, 0xffff)), {}, 24),
   'nx_action_bundle:2': (dict(algorithm=(0, 0xffff), fields=(0, 0xffff), basis=(0, 0xffff)), {}, 32),      # two slave ports: 4 bytes + padding to 8
   'nx_action_exit': ({}, {}, 8),
@@ -474,7 +476,9 @@ def h_nx_action(ctx, name):
   fields, clsfields, bodylen = NX_ACTIONS[name]
   cls = getattr(nx, name.split(':')[0])
   o = cls()
-  if ':' in name: o.slaves = [ctx.int('slave%d' % k, 0, 0xffff) for k in range(int(name.split(':')[1]))]
+  if name == 'nx_action_learn:spec':
+    o.spec.chain(field=nx.NXM_OF_VLAN_TCI, n_bits=12).chain(field=nx.NXM_OF_ETH_SRC, match=nx.NXM_OF_ETH_DST).chain(field=nx.NXM_OF_IN_PORT, output=True)
+  elif ':' in name: o.slaves = [nx.NXM_OF_IN_PORT(ctx.int('slave%d' % k, 0, 0xffff)) for k in range(int(name.split(':')[1]))]     # decoded slaves are NXM entries
   vals = {}
   for a, (lo, hi) in fields.items():
     v = ctx.int(a, lo, hi); setattr(o, a, v); vals[a] = v
@@ -482,7 +486,8 @@ def h_nx_action(ctx, name):
   if name == 'nx_action_resubmit': o.subtype = nx.NXAST_RESUBMIT_TABLE
   b = o.pack()
   ctx.check('len(pack) == len(obj)', len(b) == len(o))
-  ctx.check('total length as specified', len(b) == 8 + bodylen)
+  if bodylen is not None: ctx.check('total length as specified', len(b) == 8 + bodylen)
+  else: ctx.check('total length is a multiple of 8', len(b) % 8 == 0)
   ctx.check('header: type, length, vendor, subtype', ctx.And(((b[0] << 8) | b[1]) == 0xffff, ((b[2] << 8) | b[3]) == len(b),
             ((b[4] << 24) | (b[5] << 16) | (b[6] << 8) | b[7]) == 0x2320, ((b[8] << 8) | b[9]) == o.subtype))
   o2 = cls()
